@@ -4,6 +4,7 @@ its attribute map are sent to the driver and the real check_fcn_attrs / check_va
 outcome class, diagnostic id and the normalised intent / value / deref / rank of every declaration are compared."""
 import contextlib
 import copy
+import json
 import re
 
 from tools import common
@@ -229,6 +230,77 @@ def accept_cases():
     return out
 
 
+GOOD_ENTRIES = ["(float *arg +rank(1), int n +implied(size(arg)))", "(double *arg +rank(1), int n +implied(size(arg)))",
+                "(int *arg +rank(1), int n)"]
+# (entry text, documented rule by which check_fcn_attrs must reject the whole function)
+BAD_ENTRIES = [
+    ("(float *arg +rank(1), int n +implied(size(args)))", "implied-names-an-argument-of-the-same-entry"),
+    ("(float *arg +rank(1), int n +implied(size(arg,n)))", "implied-size-takes-one-argument"),
+    ("(float *arg +rank(1), int n +implied(size(arg) 3))", "implied-is-one-expression"),
+    ("(float *arg +rank(1), int n +intent(out))", "intent-out-only-on-pointer"),
+    ("(float *arg +rank(1) +bogus, int n)", "attribute-name-must-be-documented"),
+    ("(float *arg +rank(8), int n)", "rank-must-be-0-7"),
+    ("(float *arg +rank(1), int n +dimension(3))", "dimension-only-on-pointer"),
+    ("(float *arg +rank(1) +dimension(n), int n)", "rank-and-dimension"),
+    ("(float *arg +rank(1) +intent(sideways), int n)", "intent-must-be-in-out-inout"),
+    ("(float *arg +rank(1) +deref(pointer), int n +deref(pointer))", "deref-only-on-pointer"),
+]
+UNDOCUMENTED = ["bogus", "foo", "intnet", "Intent", "dim"]
+
+
+def position_cases():
+    """Per-entry and per-position rules: a rule that an argument must satisfy holds wherever an argument can be written -
+    (a) an attribute name outside the documented list on a top-level argument, on a parameter of a function-pointer
+    argument (any depth), on an argument of any entry of `fortran_generic`, on a function-pointer parameter inside such an
+    entry; (b) every entry (first, middle, last, only) of a multi-entry `fortran_generic` list is validated: one bad entry
+    by a documented rule among good ones is a reject; all good entries are accepted.
+    -> list of (declaration dict, rule, "accept" | "reject")"""
+    out = []
+    for name in UNDOCUMENTED:
+        a = "+" + name
+        for shape in ("", "(3)"):
+            b = a + shape
+            out.append(({"decl": "void f(int *x %s)" % b}, "attribute-name-must-be-documented", "reject"))
+            out.append(({"decl": "void f(int n, int *x %s)" % b}, "attribute-name-must-be-documented", "reject"))
+            out.append(({"decl": "void f(int n, int (*cb)(int *p %s))" % b}, "attribute-name-must-be-documented", "reject"))
+            out.append(({"decl": "void f(int n, int (*cb)(int q, int *p %s))" % b}, "attribute-name-must-be-documented", "reject"))
+            out.append(({"decl": "void f(int n, int (*cb)(int p %s))" % b}, "attribute-name-must-be-documented", "reject"))
+            out.append(({"decl": "void f(int n, void (*cb)(int (*g)(int *p %s)))" % b}, "attribute-name-must-be-documented", "reject"))
+            out.append(({"decl": "void f(double *arg, int (*cb)(int *p))",
+                         "fortran_generic": [{"decl": "(float *arg, int (*cb)(int *p %s))" % b}, {"decl": "(double *arg, int (*cb)(int *p))"}]},
+                        "attribute-name-must-be-documented", "reject"))
+            for n in (1, 2, 3):
+                for k in range(n):
+                    ents = [{"decl": "(float *arg %s)" % b if i == k else ("(double *arg)", "(int *arg)", "(long *arg)")[i]} for i in range(n)]
+                    out.append(({"decl": "void f(double *arg)", "fortran_generic": ents}, "attribute-name-must-be-documented", "reject"))
+    base = "void f(double *arg +rank(1), int n +implied(size(arg)))"
+    for n in (1, 2, 3):
+        out.append(({"decl": base, "fortran_generic": [{"decl": g} for g in GOOD_ENTRIES[:n]]}, "fortran-generic-documented-form", "accept"))
+        for k in range(n):
+            for bad, rule in BAD_ENTRIES:
+                ents = [{"decl": bad if i == k else GOOD_ENTRIES[(i + 1) % 3]} for i in range(n)]
+                out.append(({"decl": base, "fortran_generic": ents}, rule, "reject"))
+    # two bad entries
+    for (b1, r1) in BAD_ENTRIES[:3]:
+        for (b2, _) in BAD_ENTRIES[3:6]:
+            out.append(({"decl": base, "fortran_generic": [{"decl": b1}, {"decl": GOOD_ENTRIES[1]}, {"decl": b2}]}, r1, "reject"))
+    # the documented example (docs/input.rst, fortran_generic) and legal attribute combinations inside entries
+    out.append(({"decl": "void GenericReal(double arg)", "fortran_generic": [{"decl": "(float arg)", "function_suffix": "float"},
+                                                                              {"decl": "(double arg)", "function_suffix": "double"}]},
+                "fortran-generic-documented-form", "accept"))
+    out.append(({"decl": "void f(const double *arg +rank(1), int n)", "fortran_generic": [
+        {"decl": "(const float *arg +rank(1) +intent(in), int n +intent(in))"}, {"decl": "(const double *arg +rank(1), int n +intent(IN))"}]},
+        "fortran-generic-documented-form", "accept"))
+    # explicit (redundant) intent(in) on by-value arguments: regression/input/pointers.yaml style
+    for v in CASE_VARIANTS("in"):
+        out.append(({"decl": "void f(const int argin +intent(%s), int *argout +intent(out))" % v}, "intent-in-on-value-is-legal", "accept"))
+        out.append(({"decl": "void f(double arg +intent(%s))" % v}, "intent-in-on-value-is-legal", "accept"))
+        out.append(({"decl": "void f(int n, int (*cb)(int p +intent(%s)))" % v}, "intent-in-on-value-is-legal", "accept"))
+        out.append(({"decl": "void f(double arg)", "fortran_generic": [{"decl": "(float arg +intent(%s))" % v}, {"decl": "(double arg)"}]},
+                    "intent-in-on-value-is-legal", "accept"))
+    return out
+
+
 def run_vattrs(ctx, thorough, ok):
     from shroud import ast as sast, generate, typemap, main as smain
     from tools.props import c17_attrs
@@ -250,10 +322,17 @@ def run_vattrs(ctx, thorough, ok):
                 entry["attrs"] = attrs
             cases.append((lang, None, [entry], label, ("boundary", decl)))
             expect[(lang, label)] = (rule, mode)
-    bstat = {"cases": 0, "must_reject": 0, "rejected": 0, "accepted_although_illegal": 0, "library_rejected": 0,
+    npos = 0
+    for entry, rule, mode in position_cases():
+        for lang in ("c", "cxx"):
+            label = "boundary %s" % json.dumps(entry, sort_keys=True)
+            cases.append((lang, None, [entry], label, ("position", rule, mode, len(entry.get("fortran_generic", [])))))
+            expect[(lang, label)] = (rule, mode)
+            npos += 1
+    bstat = {"position_cases": npos, "cases": 0, "must_reject": 0, "rejected": 0, "accepted_although_illegal": 0, "library_rejected": 0,
              "must_accept": 0, "rejected_although_legal": 0}
     reqs, impl, labels = [], [], []
-    stat = {"libraries": 0, "library_rejected_before_verify": 0, "nodes": 0, "outside_model": 0, "fortran_generic_skipped": 0,
+    stat = {"libraries": 0, "library_rejected_before_verify": 0, "nodes": 0, "outside_model": 0,
             "by_outcome": {}, "by_id": {}}
     with c17_attrs.fast_helpers():
         for lang, opts, decls, label, nt in cases:
@@ -279,21 +358,36 @@ def run_vattrs(ctx, thorough, ok):
             stat["libraries"] += 1
             v = generate.VerifyAttrs(lib, cfg)
             for kind, node, cls in nodes_of(lib):
-                if kind == "fcn" and getattr(node, "fortran_generic", None):
-                    stat["fortran_generic_skipped"] += 1
-                    continue
                 items = enc_decl(node.ast, kind == "fcn")
+                gens = getattr(node, "fortran_generic", None) if kind == "fcn" else None
+                op = kind
+                if items is not None and gens:
+                    # `vattrs fcng`: the function, then every fortran_generic entry's parsed argument list
+                    op = "fcng"
+                    items = items + [str(len(gens))]
+                    for g in gens:
+                        subs = [enc_decl(p, False) for p in (g.decls or [])]
+                        if any(x is None for x in subs):
+                            items = None
+                            break
+                        items.append(str(len(subs)))
+                        for x in subs:
+                            items += x
+                    if items is not None:
+                        stat["fortran_generic_functions"] = stat.get("fortran_generic_functions", 0) + 1
+                        stat["fortran_generic_entries"] = stat.get("fortran_generic_entries", 0) + len(gens)
                 if items is None:
                     stat["outside_model"] += 1
                     continue
-                req = "vattrs %s %s %s" % (kind, common.encs(list(lib.patterns) if isinstance(lib.patterns, (list, dict)) else []),
+                req = "vattrs %s %s %s" % (op, common.encs(list(lib.patterns) if isinstance(lib.patterns, (list, dict)) else []),
                                            " ".join(items))
                 try:
                     with contextlib.redirect_stdout(c17_attrs._NULL):
                         if kind == "fcn":
                             v.check_fcn_attrs(node)
                             a = node.ast
-                            res = "ok " + ";".join(norm_decl(a) + [x for p in a.params for x in norm_arg(p)])
+                            res = "ok " + ";".join(norm_decl(a) + [x for p in a.params for x in norm_arg(p)]
+                                                   + [x for g in (gens or []) for p in (g.decls or []) for x in norm_arg(p)])
                         else:
                             v.check_var_attrs(cls, node)
                             res = "ok"
